@@ -39,8 +39,8 @@ def snapshot(d):
     return out
 
 def struct_len(tokens):
-    """(length, has_markov, has_context).  Context strings have 2-4 characters whatever their label says."""
-    L, m, x = 0, False, False
+    """(length without context segments, has_markov, number of context segments).  A context string has 2-4 characters whatever its label says."""
+    L, m, x = 0, False, 0
     for t in tokens:
         k = t[0]
         if k in 'ADOK':
@@ -50,7 +50,7 @@ def struct_len(tokens):
         elif k == 'M':
             m = True
         elif k == 'X':
-            x = True
+            x += 1
     return L, m, x
 
 def reference_filter(lines, opts):
@@ -62,14 +62,14 @@ def reference_filter(lines, opts):
         und = False
         if opts.get('min_length') or opts.get('max_length'):
             L, m, x = struct_len(toks)
-            if m and L == 0:
+            if m and L == 0 and not x:
                 pass                          # the Markov structure has no fixed length: the length filter does not apply
-            elif x:
-                und = True                    # length of a context segment is 2-4: membership not judged here (finding F-C20 covers the guesses)
             else:
-                if opts.get('min_length') and L < opts['min_length']:
+                # a structure fails the filter when one of its guesses could fall outside the bounds: shortest possible length against the
+                # minimum, longest possible length against the maximum (a context segment contributes 2..4 characters)
+                if opts.get('min_length') and L + 2 * x < opts['min_length']:
                     ok = False
-                if opts.get('max_length') and L > opts['max_length']:
+                if opts.get('max_length') and L + 4 * x > opts['max_length']:
                     ok = False
         if opts.get('terminal_set'):
             if any(t[0] not in opts['terminal_set'] for t in toks):
@@ -198,7 +198,7 @@ def check_case(run, case, use_cli=False):
                     run.ev('GUESS', len(lines))
                 gstream.run_queue(target, dict(skip_brute=True, skip_case=False, folder='Grammar'), expand=expand)
                 for labs, w in bad.items():
-                    mech = 'context-label-length' if any(l[0] == 'X' for l in labs) else None
+                    mech = None
                     run.violation(f'edited ruleset (bounds {mn}..{mx or "inf"}) still generates {w!r} (length {len(w)}) from structure {"".join(l for l in labs if l[0] != "C")}', case, mech=mech)
                     if mech is None:
                         return
@@ -215,7 +215,7 @@ def run(run, rng):
     run.required_events = ['edits', 'lists_compared', 'guess_length_checks', 'audit_events', 'cli_runs']
     run.min_distinct = 10
     run.assumptions = ['label lengths <= 999 (the tool tokenises with [A-Z][0-9]{0,3})', 'the Markov structure has no fixed length: a length filter keeps it',
-                       'membership of structures with a context (X) label under a length filter is not judged (their guesses are: finding F-C20)',
+                       'a context (X) segment counts 2 characters against --min_length and 4 against --max_length (every guess of a surviving structure must respect the bounds)',
                        'min/max 0 means "no bound"']
     for i in range(N[run.tier]):
         run.guard(gen_case(rng), check_case, use_cli=(i % 15 == 7), seconds=200)
